@@ -114,6 +114,7 @@ type Interp struct {
 	gs       *gsched            // goroutines of this path (nil until the first go statement / channel operation)
 	onceDone map[*Cell]bool     // sync.Once values already used on this path
 	wgs      map[*Cell]*wgState // sync.WaitGroup counters of this path
+	viperKV  map[string]Value   // viper stand-in: keys set on this path
 	mapCOW  map[*MapVal]*MapVal // this path's private copies of frozen (package-init) maps it wrote to
 
 	prefix []Decision // decisions to follow
